@@ -45,6 +45,7 @@ func runC09(c *Ctx) {
 	c.rule("C09.11", func() { c09NoUnsignedWrapInGuards(c) })
 	c.rule("C09.12", func() { c09CutsDrainedBeforeFinish(c) })
 	c.rule("C09.13", func() { c09CutsFromFoundPositions(c) })
+	c.rule("C09.14", func() { c09SNIParserBounds(c) })
 }
 
 func c09Flight(c *Ctx) {
